@@ -1,6 +1,6 @@
 SPECIFICATION Spec
 CONSTANTS MaxLen = 2 MaxN = 4 Infinite = FALSE MaxOut = 100
-  Vals = "nat" Stops = TRUE MaxRuns = 2
+  Vals = "nat" Stops = TRUE MaxRuns = 2 MaxLead = 0
   Alphabet <- AlphaRerun
   Must <- NoMust
   Pairs <- Both
